@@ -70,6 +70,7 @@ func (r *Runtime) fireAt(when int64) {
 	if when+1 > r.now {
 		r.now = when + 1
 	}
+	r.barrier()
 	for {
 		var best *rtimer
 		for _, t := range r.timers {
@@ -104,6 +105,7 @@ func (r *Runtime) arm(t *rtimer, d time.Duration) {
 
 // ChanTimer is the drop-in for time.Timer.
 type ChanTimer struct {
+	h       H
 	C       *Chan[time.Time]
 	t       rtimer
 	async   bool
@@ -151,6 +153,8 @@ func AfterFunc(d time.Duration, f func()) *ChanTimer {
 }
 
 func (tm *ChanTimer) fire(now int64) {
+	tm.h = mix(tm.h, H{uint64(now), 0}, 0x92)
+	tm.C.h = mix(tm.C.h, tm.h, 0x93)
 	v := Epoch0.Add(time.Duration(now))
 	if tm.async {
 		tm.C.rawSendNB(v)
@@ -183,6 +187,7 @@ func (tm *ChanTimer) Stop() bool {
 	}
 	r := rt
 	r.point("timer.Stop")
+	r.event(&tm.h, 0x90)
 	pending := tm.t.armed
 	tm.t.armed = false
 	if tm.fn == nil && !tm.async {
@@ -204,6 +209,7 @@ func (tm *ChanTimer) Reset(d time.Duration) bool {
 	}
 	r := rt
 	r.point("timer.Reset")
+	r.event(&tm.h, 0x91)
 	pending := tm.t.armed
 	if tm.fn == nil && !tm.async {
 		if tm.expired {
@@ -237,7 +243,7 @@ func Sleep(d time.Duration) {
 	}
 	t := r.cur
 	tm := &rtimer{}
-	tm.fire = func(int64) { r.ready(t) }
+	tm.fire = func(now int64) { absorb(t, H{uint64(now), 0x51}); r.ready(t) }
 	r.arm(tm, d)
 	r.block("sleep")
 }
